@@ -12,6 +12,7 @@ package main
 
 import (
 	"bufio"
+	"errors"
 	"flag"
 	"fmt"
 	"os"
@@ -21,6 +22,7 @@ import (
 	"time"
 
 	"github.com/nspcc-dev/neo-go/pkg/io"
+	"github.com/nspcc-dev/neo-go/pkg/vm/stackitem"
 
 	"verif/harness/internal/hx"
 	"verif/harness/internal/prng"
@@ -174,7 +176,7 @@ func (rn *runner) codecCase(k int, r *prng.R) {
 		if err != nil {
 			// out-of-range values some encoders refuse (reported through w.Err): nothing to decode
 			o.Count("gen:unencodable:" + c.name)
-			if !g.invalid {
+			if !g.invalid && !(strings.HasPrefix(c.name, "item") && errors.Is(err, stackitem.ErrTooBig)) {
 				o.Fail(c.name+"-encode-fails", k, "a valid generated value cannot be encoded: %v", err)
 			}
 			return
